@@ -103,15 +103,15 @@ def main():
         meta["checks"] = {}
         for c in checks:
             t1 = time.time()
-            env = dict(os.environ, VERIF_REPO=wt)
+            env = dict(os.environ, VERIF_REPO=wt, VERIF_SCRATCH_OUT="/tmp/vs_out_%s" % name)
             rc, out = sh("./check %s --tier %s" % (c, tier), cwd=V, env=env, timeout=7200)
             viol = [l for l in out.splitlines() if l.startswith("VIOLATION")]
             detail = [l.strip() for l in out.splitlines() if l.startswith("  target=")][:4]
             meta["checks"][c] = dict(exit=rc, violations=len(viol), first=detail, wall_s=round(time.time() - t1),
                                      tail=out.splitlines()[-1][:300] if out.splitlines() else "")
             meta["ran"].append("VERIF_REPO=<scratch worktree with the patch> ./check %s --tier %s" % (c, tier))
-            # violations found on the scratch tree are not findings on /repo: drop their replay files
-            sh("git clean -fdq replay evidence; git checkout -q -- evidence replay 2>/dev/null", cwd=V)
+            # violations found on the scratch tree are not findings on /repo: their replay files went to a scratch dir
+            sh("rm -rf /tmp/vs_out_%s" % name)
         meta["caught_by"] = [c for c, r in meta["checks"].items() if r["exit"] == 1 and r["violations"] > 0]
         return finish(meta, name, patch, demo, readme)
     finally:
